@@ -6,8 +6,14 @@ import (
 	_ "verif/harness/checks/c02"
 	_ "verif/harness/checks/c03"
 	_ "verif/harness/checks/c04"
+	_ "verif/harness/checks/c05"
+	_ "verif/harness/checks/c06"
+	_ "verif/harness/checks/c07"
+	_ "verif/harness/checks/c08"
 	_ "verif/harness/checks/c09"
 	_ "verif/harness/checks/c10"
+	_ "verif/harness/checks/c12"
+	_ "verif/harness/checks/c15"
 	_ "verif/harness/checks/c16"
 	_ "verif/harness/checks/c17"
 	_ "verif/harness/checks/c18"
